@@ -1177,6 +1177,15 @@ func run(c *drv.Ctx) error {
 		}
 	}()
 
+	// ---- re-creation of a name while its old instance is still being wiped
+	wg.Add(1)
+	go func() {
+		defer wg.Done()
+		if err := recreateDuringDeletion(c, bin, c.N(2, 6)); err != nil {
+			fail(fmt.Errorf("recreate scenario: %v", err))
+		}
+	}()
+
 	// ---- history layer
 	type wconf struct {
 		name string
